@@ -348,8 +348,19 @@ func (en *Engine) VerifyFunc(fc *FuncContract) (res *FuncResult) {
 			}
 		}
 		for i, e := range fc.Ensures {
-			g := fr.evalBool(post, e.E)
-			fr.oblige(rst, "ensures", clauseName(e, i), g, e, fn.Pos())
+			parts := SplitConj(e.E)
+			for k, p := range parts {
+				g := fr.evalBool(post, p)
+				name := clauseName(e, i)
+				if len(parts) > 1 {
+					name = fmt.Sprintf("%s.%d", name, k+1)
+				}
+				ce := *e
+				ce.Text = ExprString(p)
+				fr.oblige(rst, "ensures", name, g, &ce, fn.Pos())
+				// later clauses may use earlier ones as lemmas (each is proved on its own)
+				fr.assume(rst, g)
+			}
 		}
 		fr.oblige(rst, "cover", "return", False, nil, fn.Pos())
 		if fc.HasMod {
